@@ -4,6 +4,7 @@ import (
 	"fmt"
 	"go/token"
 	"go/types"
+	"os"
 	"sort"
 	"strings"
 
@@ -55,6 +56,28 @@ type DecideSpec struct {
 	// R, when set, is bound to the path's phi resolution during each
 	// interpretation so that matchers can resolve operands.
 	R *Resolver
+	// NoStep disables stepping into private helpers (see StepPolicy).
+	NoStep bool
+}
+
+// StepPolicy says which statically called same-package functions the
+// interpreter steps into (their conditions and effects then count as the
+// caller's own): set by the property layer to "unexported helpers with a single
+// call site", i.e. code that an extract-function refactor moved out of the
+// function under analysis.
+var StepPolicy func(*ssa.Function) bool
+
+var curResolve func(ssa.Value) ssa.Value
+
+// Rz resolves a value on the path currently being interpreted (phis, cells,
+// parameters of helpers that were stepped into, results of such helpers); outside
+// an interpretation it is the identity. Effect and condition matchers use it
+// for operands they compare by identity.
+func Rz(v ssa.Value) ssa.Value {
+	if curResolve == nil || v == nil {
+		return v
+	}
+	return curResolve(v)
 }
 
 // Resolver gives condition matchers access to the current path's phi
@@ -86,7 +109,35 @@ type DecideResult struct {
 
 // Decide enumerates all valuations, interprets the function's CFG under each
 // and compares the outcome (effects in order + return) with the reference.
+//
+// Two views of the same code are tried: private helpers opaque (their results
+// are atoms the rule names), and — when that view is undecided or disagrees —
+// single-call-site private helpers stepped into (code that an extract-function
+// refactor moved out of the function). The function is accepted when one view
+// agrees with the reference on every valuation.
 func Decide(spec DecideSpec, pos func(token.Pos) string) DecideResult {
+	opaque := spec
+	opaque.NoStep = true
+	res := decideOnce(opaque, pos)
+	if (len(res.Undecided) > 0 || len(res.Mismatches) > 0) && StepPolicy != nil && !spec.NoStep {
+		res2 := decideOnce(spec, pos)
+		if os.Getenv("RQCHECK_DEBUG_DECIDE") != "" {
+			fmt.Fprintf(os.Stderr, "DECIDE %s: opaque undecided=%v mismatches=%d; stepped undecided=%v mismatches=%d\n", spec.Fn.Name(), res.Undecided, len(res.Mismatches), res2.Undecided, len(res2.Mismatches))
+			if len(res2.Mismatches) > 0 {
+				fmt.Fprintf(os.Stderr, "  first stepped mismatch: %+v\n", res2.Mismatches[0])
+			}
+		}
+		if len(res2.Undecided) == 0 && len(res2.Mismatches) == 0 {
+			return res2
+		}
+		if len(res.Undecided) > 0 && len(res2.Undecided) == 0 {
+			return res2
+		}
+	}
+	return res
+}
+
+func decideOnce(spec DecideSpec, pos func(token.Pos) string) DecideResult {
 	var res DecideResult
 	if spec.MaxSteps == 0 {
 		spec.MaxSteps = 400
@@ -151,12 +202,36 @@ func interpret(spec DecideSpec, val Val, pos func(token.Pos) string) (string, []
 	entered := map[*ssa.BasicBlock]*ssa.BasicBlock{}
 	// values stored on this path to field/local cells (no aliasing assumed)
 	mem := map[string]ssa.Value{}
+	// interprocedural stepping: parameters of a helper that was stepped into are bound to the
+	// (resolved) arguments, and a call that was stepped into stands for the values it returned
+	bound := map[ssa.Value]ssa.Value{}
+	results := map[*ssa.Call][]ssa.Value{}
 	resolve = func(v ssa.Value) ssa.Value {
-		for i := 0; i < 8; i++ {
+		for i := 0; i < 12; i++ {
+			if bv, ok := bound[v]; ok {
+				v = bv
+				continue
+			}
+			if call, ok := v.(*ssa.Call); ok {
+				if rs, ok := results[call]; ok && len(rs) == 1 {
+					v = rs[0]
+					continue
+				}
+				return v
+			}
+			if ex, ok := v.(*ssa.Extract); ok {
+				if call, ok := ex.Tuple.(*ssa.Call); ok {
+					if rs, ok := results[call]; ok && ex.Index < len(rs) {
+						v = rs[ex.Index]
+						continue
+					}
+				}
+				return v
+			}
 			if u, isLoad := v.(*ssa.UnOp); isLoad && u.Op == token.MUL {
 				switch u.X.(type) {
 				case *ssa.FieldAddr, *ssa.Alloc:
-					if sv, ok := mem[cellName(u.X)]; ok {
+					if sv, ok := mem[cellNameR(u.X, resolve)]; ok {
 						v = sv
 						continue
 					}
@@ -189,6 +264,8 @@ func interpret(spec DecideSpec, val Val, pos func(token.Pos) string) (string, []
 	if spec.R != nil {
 		spec.R.f = resolve
 	}
+	curResolve = resolve
+	defer func() { curResolve = nil }()
 	evalBool := func(v ssa.Value) (string, bool) {
 		v = resolve(v)
 		neg := false
@@ -216,27 +293,89 @@ func interpret(spec DecideSpec, val Val, pos func(token.Pos) string) (string, []
 		}
 		return "", false
 	}
-	visits := map[*ssa.BasicBlock]int{}
-	for step := 0; step < spec.MaxSteps; step++ {
-		visits[b]++
-		if visits[b] > 1 {
-			// under a fixed valuation a revisit repeats forever
-			return strings.Join(effects, ";") + " => loop", bad
+	// frames: the function under analysis and the private helpers stepped into
+	type frame struct {
+		fn     *ssa.Function
+		b      *ssa.BasicBlock
+		prev   *ssa.BasicBlock
+		idx    int
+		call   *ssa.Call
+		visits map[*ssa.BasicBlock]int
+	}
+	stack := []*frame{{fn: fn, b: b, visits: map[*ssa.BasicBlock]int{}}}
+	_ = prev
+	stepInto := func(call *ssa.Call) *ssa.Function {
+		if spec.NoStep || len(stack) > 2 {
+			return nil
 		}
-		entered[b] = prev
-		for _, in := range b.Instrs {
+		g := call.Call.StaticCallee()
+		if g == nil || call.Call.IsInvoke() || len(g.Blocks) == 0 || g.Pkg == nil || fn.Pkg == nil || g.Pkg != fn.Pkg {
+			return nil
+		}
+		if _, isMC := call.Call.Value.(*ssa.MakeClosure); isMC {
+			return nil
+		}
+		for _, fr := range stack {
+			if fr.fn == g {
+				return nil
+			}
+		}
+		if StepPolicy == nil || !StepPolicy(g) {
+			if os.Getenv("RQCHECK_DEBUG_DECIDE") != "" {
+				fmt.Fprintf(os.Stderr, "  not stepping into %s (policy)\n", g.Name())
+			}
+			return nil
+		}
+		return g
+	}
+	for step := 0; step < spec.MaxSteps*4; step++ {
+		fr := stack[len(stack)-1]
+		if fr.idx == 0 {
+			fr.visits[fr.b]++
+			if fr.visits[fr.b] > 1 {
+				// under a fixed valuation a revisit repeats forever
+				return strings.Join(effects, ";") + " => loop", bad
+			}
+			entered[fr.b] = fr.prev
+		}
+		if fr.idx >= len(fr.b.Instrs) {
+			break
+		}
+		{
+			in := fr.b.Instrs[fr.idx]
+			fr.idx++
+			b = fr.b
 			if spec.Effect != nil {
 				if lbl, ok := spec.Effect(in); ok {
 					effects = append(effects, lbl)
 				}
 			}
 			switch t := in.(type) {
+			case *ssa.Call:
+				if g := stepInto(t); g != nil {
+					for i, p := range g.Params {
+						if i < len(t.Call.Args) {
+							bound[p] = resolve(t.Call.Args[i])
+						}
+					}
+					stack = append(stack, &frame{fn: g, b: g.Blocks[0], call: t, visits: map[*ssa.BasicBlock]int{}})
+				}
 			case *ssa.Store:
 				switch t.Addr.(type) {
 				case *ssa.FieldAddr, *ssa.Alloc:
-					mem[cellName(t.Addr)] = resolve(t.Val)
+					mem[cellNameR(t.Addr, resolve)] = resolve(t.Val)
 				}
 			case *ssa.Return:
+				if len(stack) > 1 {
+					// back to the caller: the call stands for what was returned on this path
+					var rs []ssa.Value
+					for _, r := range t.Results {
+						rs = append(rs, resolve(r))
+					}
+					results[fr.call] = rs
+					stack = stack[:len(stack)-1]
+					continue
+				}
 				ret := ""
 				if spec.Ret != nil {
 					ret = spec.Ret(t, resolve)
@@ -263,7 +402,7 @@ func interpret(spec DecideSpec, val Val, pos func(token.Pos) string) (string, []
 			case *ssa.Panic:
 				return strings.Join(effects, ";") + " => panic", bad
 			case *ssa.Jump:
-				prev, b = b, b.Succs[0]
+				fr.prev, fr.b, fr.idx = fr.b, fr.b.Succs[0], 0
 			case *ssa.If:
 				cond := resolve(t.Cond)
 				neg := false
@@ -275,8 +414,28 @@ func interpret(spec DecideSpec, val Val, pos func(token.Pos) string) (string, []
 					neg = !neg
 					cond = resolve(u.X)
 				}
+				// operands that stand for values returned by a helper that was stepped into are
+				// replaced by those values, so that the matchers see what the helper computed
+				if bo, isBO := cond.(*ssa.BinOp); isBO && len(results) > 0 {
+					rx, ry := resolve(bo.X), resolve(bo.Y)
+					if rx != bo.X || ry != bo.Y {
+						cond = &ssa.BinOp{Op: bo.Op, X: rx, Y: ry}
+					}
+				}
+				folded, foldedOK := false, false
+				if bo, isBO := cond.(*ssa.BinOp); isBO && (bo.Op == token.EQL || bo.Op == token.NEQ) {
+					xNil, yNil := IsNilConst(bo.X), IsNilConst(bo.Y)
+					switch {
+					case xNil && yNil:
+						folded, foldedOK = bo.Op == token.EQL, true
+					case yNil && definitelyError(bo.X), xNil && definitelyError(bo.Y):
+						folded, foldedOK = bo.Op == token.NEQ, true
+					}
+				}
 				var truth bool
-				if cb, ok := ConstBool(cond); ok {
+				if foldedOK {
+					truth = folded
+				} else if cb, ok := ConstBool(cond); ok {
 					truth = cb
 				} else {
 					matched := false
@@ -296,14 +455,11 @@ func interpret(spec DecideSpec, val Val, pos func(token.Pos) string) (string, []
 					truth = !truth
 				}
 				if truth {
-					prev, b = b, b.Succs[0]
+					fr.prev, fr.b, fr.idx = fr.b, fr.b.Succs[0], 0
 				} else {
-					prev, b = b, b.Succs[1]
+					fr.prev, fr.b, fr.idx = fr.b, fr.b.Succs[1], 0
 				}
 			}
-		}
-		if len(b.Instrs) == 0 {
-			break
 		}
 	}
 	return strings.Join(effects, ";") + " => <no exit within step bound>", bad
